@@ -1,9 +1,10 @@
 """C02 — snapshot and restore reproduce the state exactly, at any point of any history."""
-import json, os, collections
+import json, os, re, collections
 import vlib
 from checks import storelib as S
 
 PROP = "C02"
+MIXED = re.compile(r"(node=|svc=)\S*[A-Z]")
 PROP_FILE = "Properties/C02.v"
 
 
@@ -80,8 +81,10 @@ def case_t(h):
         k = c["k"]
         with_suffix = (k % 3 == h["id"] % 3) or k == 0 or k == n
         cuts.append("(%s)" % cut_t(c, with_suffix))
-    return "Case %s %s %s %s" % (S.clist([S.cmd(c) for c in h["cmds"]]), S.clist(["(%s)" % S.res(r) for r in h["results"]]),
-                                 S.dump(h["final"]), S.clist(cuts))
+    streams = ["(Stream %s %s %s)" % (S.cn(x["last_index"]), S.clist(["(%s)" % rec_t(r) for r in x["records"]]),
+                                     "None" if x.get("err") else "(Some %s)" % S.dump(x["restored"])) for x in h.get("streams") or []]
+    return "Case %s %s %s %s %s" % (S.clist([S.cmd(c) for c in h["cmds"]]), S.clist(["(%s)" % S.res(r) for r in h["results"]]),
+                                    S.dump(h["final"]), S.clist(cuts), S.clist(streams))
 
 
 def shard_text(hs):
@@ -103,7 +106,7 @@ def run(ctx):
         "SnapshotHeader.LastIndex and the prepared queries' ModifyIndex are not part of the model's state: the theorems quantify over all their values",
         "C02_cut reuses C01's non-interference theorem for the lock-delay map (coq/FSM/NonInterference.v run_sim, same Store model)",
         "hypotheses of the theorems: Raft indexes are positive and SessionCreate never reuses a live session id (Session.Apply draws UUIDs until an unused one is found) -- wf_log",
-        "the Go harness (harness/snaprestore): canonical field-by-field serialiser, lenient renderings for the open known findings, projected fields listed under projected_fields",
+        "the Go harness (harness/snaprestore): canonical field-by-field serialiser; lenient renderings for the open known findings, each invoked only when its witness predicate holds on the donor at the cut (harness/snaprestore/witness.go; the witness is part of the matched signature) and only for the rows / names the witness names; projected fields listed under projected_fields",
     ]
     assumptions = ["go-memdb transaction semantics", "generators stay inside what the leader emits (session ids unused, config entries normalized+validated, CAS indexes any)",
                    "wf_log: positive Raft indexes, unused session ids on create"]
@@ -212,7 +215,7 @@ def run(ctx):
     cov.update({
         "evaluations": (summary or {}).get("restores", 0) + cuts_model,
         "distinct_nontrivial": distinct,
-        "rule": "evaluations = snapshot->restore cycles through the real FSM (every cut of every history: wide histories over ~95 command kinds + model histories of the core store subset); distinct_nontrivial = distinct command sequences; every cycle compares the canonical dump of every table, ~190 read queries with their indexes, every result of the suffix and the final dump",
+        "rule": "evaluations = snapshot->restore cycles through the real FSM (every cut of every history: wide histories over ~95 command kinds + model histories of the core store subset); distinct_nontrivial = distinct command sequences; every cycle compares the canonical dump of every table, ~190 read queries with their indexes, every result of the suffix and the final dump; a third of the cuts also persist the Snapshot() only after the rest of the history ran (deferred Persist must restore to the same store), another third snapshot the RESTORED server half way through the suffix and restore that into an FSM that already holds state (chained, second generation)",
         "wide_histories": len(wide), "model_histories": len(model),
         "restore_cycles_wide": (summary or {}).get("restores", 0), "restore_cycles_model": cuts_model,
         "commands_applied": (summary or {}).get("applies", 0),
@@ -229,10 +232,16 @@ def run(ctx):
         "restorer_record_types": (summary or {}).get("restorer_types"), "fsm_command_types": (summary or {}).get("command_types"),
         "projected_fields": (summary or {}).get("projected_fields"),
         "peering_secret_combinations_at_cuts": (summary or {}).get("peering_secret_combinations_at_cuts"),
+        "witness_holds_at_cuts": (summary or {}).get("witness_holds_at_cuts"),
+        "deferred_persist_cycles": (summary or {}).get("deferred_persist_cycles"),
+        "chained_restore_cycles": (summary or {}).get("chained_restore_cycles"),
+        "model_reads_compared_in_coq": sum(len(c.get("qreads") or []) for h in model for c in h["cuts"]),
+        "handmade_snapshot_streams_compared_in_coq": sum(len(h.get("streams") or []) for h in model),
+        "histories_with_mixed_case_names": sum(1 for h in wide if any(MIXED.search(c["desc"]) for c in h["cmds"])),
         "history_length_histogram": {str(k): v for k, v in sorted(lens.items())},
         "malformed_commands": sum(v for k, v in kinds.items() if k.startswith("malformed")),
         "refutation_witness_replayed_on_implementation": witness_ok,
-        "lenient_renderings": "one per open known finding (harness/snaprestore/canon.go maskSet): a difference that survives ALL of them is a VIOLATION; a difference explained by one is reported under that finding's signature",
+        "lenient_renderings": "one per open known finding (harness/snaprestore/canon.go maskSet), applied only at cuts where the finding's witness predicate holds on the donor (witness.go computeWitness) and only to the rows / index rows / query names the witness names; without the witness the same difference is a VIOLATION; a difference explained by a finding is reported under {kind, witness}",
         "samples": [{"mix": h["mix"], "cmds": [c["desc"] for c in h["cmds"][:5]]} for h in wide[:2]] +
                    [{"mix": h["mix"], "cmds": h["cmds"][:3], "first_cut_records": h["cuts"][min(3, len(h["cuts"]) - 1)]["records"][:4]} for h in model[:1]],
         "exhaustive": False,
